@@ -474,4 +474,7 @@ impl Property for P {
         Out { tag, term, out }
     }
 }
-fn main() { run_main::<P>() }
+fn main() {
+    run_main::<P>();
+    let _ = std::fs::remove_dir_all(format!("/tmp/verif-c19-pki-{}", std::process::id()));
+}
